@@ -2411,7 +2411,7 @@ struct GlmData {
 }
 
 /// targets inside the support of the distribution, means compatible with the link
-fn gen_glm_data(rng: &mut Rng, n: usize, p: usize, mode: u32, shrink: f64, power: f64, lk: Lk, fl: Fl) -> GlmData {
+fn gen_glm_data(rng: &mut Rng, n: usize, p: usize, mode: u32, shrink: f64, power: f64, lk: Lk, fl: Fl, rescale_targets: bool) -> GlmData {
     let mut f = gen_features(rng, n, p, mode, fl);
     if shrink != 1.0 {
         // "normalised" features (as in linfa's diabetes example): small first solver step
@@ -2425,7 +2425,9 @@ fn gen_glm_data(rng: &mut Rng, n: usize, p: usize, mode: u32, shrink: f64, power
     let centre = *pick(rng, &[0.0, 1.0, 2.0]);
     // the log link is scale free in the targets: now and then they are tiny or large as a whole
     // (continuous distributions only; the f32 range is kept narrower)
-    let tscale = if lk == Lk::Log && power >= 1.5 && rng.gen_range(0..3) == 0 {
+    // (only for fits with an intercept, which absorbs the scale; without one a mean of 1e-8 has to be
+    // produced by the coefficients alone and the problem is as good as unbounded)
+    let tscale = if rescale_targets && lk == Lk::Log && power >= 1.5 && rng.gen_range(0..3) == 0 {
         if fl == Fl::F64 { *pick(rng, &[1e-6, 1e-7, 1e-8, 1e-8, 1e3]) } else { *pick(rng, &[1e-3, 1e2]) }
     } else {
         1.0
@@ -2482,7 +2484,7 @@ fn case_tweedie_random(c: &mut Case) -> Outcome {
     };
     let lk = cfg.link_eff();
     let shrink = *pick(&mut c.rng, &[1.0, 0.25, 0.0625, 0.0625]);
-    let d = gen_glm_data(&mut c.rng, n, p, mode, shrink, power, lk, fl);
+    let d = gen_glm_data(&mut c.rng, n, p, mode, shrink, power, lk, fl, cfg.intercept);
     let layout = pick_layout(&mut c.rng);
     c.note("feature_scale", json!(shrink));
     c.note("n", json!(n));
@@ -2712,7 +2714,7 @@ fn case_tweedie_reject(c: &mut Case) -> Outcome {
     let p = c.rng.gen_range(1..=3usize);
     let n = c.rng.gen_range(5..=40usize);
     let cfg = GlmCfg { power, link, alpha: *pick(&mut c.rng, &[0.0, 1.0]), intercept: c.rng.gen_bool(0.5), tol: None, max_iter: 100 };
-    let mut d = gen_glm_data(&mut c.rng, n, p, 0, 1.0, power, cfg.link_eff(), fl);
+    let mut d = gen_glm_data(&mut c.rng, n, p, 0, 1.0, power, cfg.link_eff(), fl, false);
     let bad_choices: &[f64] = if power < 2.0 { &[-1e-3, -5.0, -1e-30, f64::NEG_INFINITY] } else { &[0.0, -0.0, -1e-3, -5.0, f64::NEG_INFINITY] };
     let bad = *pick(&mut c.rng, bad_choices);
     let nbad = if c.rng.gen_bool(0.7) { 1 } else { c.rng.gen_range(1..=n) };
